@@ -5,8 +5,9 @@ PREDICT   MC_Paths.tla: every (base spelling, importing file, imported file) up 
           emitted with the predicted specifier.
 REPLAY    rt paths: the real import_path on the same pairs (import-esm off and on).
 ADJUDICATE Trace_Paths.tla: C08_Holds evaluated by TLC on the real results.
-The end-to-end half (specifiers inside files written by the real export entry points) is part
-of the C03 check, which adjudicates them with the same operators."""
+END TO END the specifiers inside the files written by the real export_all_to for the dependency graphs
+          of C03 (placements: default, directory, file, nested, `..` escapes of importer and dependency,
+          shared file under two spellings) are judged by TLC with the same Resolve (Trace_Imports.tla)."""
 import json
 import os
 import time
@@ -89,12 +90,22 @@ def run(tier):
     stats = {"states": 0, "transitions": 0, "adjudicated": 0, "drift": 0, "pred_equal": 0, "samples": [], "err_cases": 0}
     for esm in (False, True):
         one_pass(tier, esm, v, stats)
+    # end to end: the specifiers inside files written by the real export entry points (the C03 graphs),
+    # judged with the same Resolve
+    import c03
+    e2e = {"states": 0, "transitions": 0, "trees": 0, "files": 0, "samples": [], "static_checked": 0}
+    for esm in (False, True):
+        c03.run_mode(tier, esm, v, e2e, prop=PROP, payload="BADSPEC")
+    stats["states"] += e2e["states"]
+    stats["transitions"] += e2e["transitions"]
+    stats["adjudicated"] += e2e["trees"]
     rc = v.finish()
     cov = {"states": stats["states"], "transitions": stats["transitions"],
            "traces_validated_against_impl": stats["adjudicated"],
            "samples": stats["samples"],
            "cases_replayed": stats["adjudicated"], "predicted_equal": stats["pred_equal"], "drift": stats["drift"],
            "cases_where_result_is_error": stats["err_cases"],
+           "end_to_end_exported_trees": e2e["trees"], "end_to_end_files": e2e["files"],
            "exhaustive": True,
            "rule": "all (base spelling in 5) x (importing dir of depth<=D over {., .., d, e, x.y, d.ts}) x (imported path of depth<=D, 5 file names incl. x.ts.ts and j.js.ts), D=%d, import-esm off and on; each pair is one TLC state, replayed through the real import_path, judged by C08_Holds in TLC" % (2 if tier == "quick" else 3),
            "constants": {"MaxDepth": 2 if tier == "quick" else 3, "cwd": vlib.BUILD}}
